@@ -35,21 +35,34 @@ structure MutesOut where
 
 def activeOrPending : Option (List SState) := some [.active, .pending]
 
+/-- re-query of the cached ids: `QIDs(ids…), QState(active, pending)` -/
+def oldSils (env : Env) (s : Store) (now : Int) (ce : CacheEntry) : List Sil :=
+  if ce.ids.isEmpty then [] else
+    query env s now { scan := .ids ce.ids, states := activeOrPending }
+
+/-- scan of what was indexed since the cached version:
+    `QSince(version), QState(active, pending), QMatches(lset)` -/
+def newSils (env : Env) (s : Store) (now : Int) (ce : CacheEntry) (ls : LabelSet) : List Sil :=
+  if ce.version = s.version then [] else
+    query env s now { scan := .since ce.version, states := activeOrPending, ls := some ls }
+
+def newVersion (s : Store) (ce : CacheEntry) : Nat :=
+  if ce.version = s.version then ce.version else s.version
+
+def activeIdsOf (now : Int) (all : List Sil) : List String :=
+  (all.filter fun x => getState x now = .active).map (·.id)
+
+def liveIdsOf (now : Int) (all : List Sil) : List String :=
+  (all.filter fun x => getState x now ≠ .expired).map (·.id)
+
 /-- `Silencer.Mutes`. -/
 def mutes (env : Env) (s : Store) (c : Cache) (now : Int) (ls : LabelSet) : MutesOut :=
   let ce := cacheGet c ls
-  let upToDate := decide (ce.version = s.version)
-  if upToDate && ce.ids.isEmpty then ⟨c, false, []⟩ else
-  let old := if ce.ids.isEmpty then [] else
-    query env s now { scan := .ids ce.ids, states := activeOrPending }
-  let new := if upToDate then [] else
-    query env s now { scan := .since ce.version, states := activeOrPending, ls := some ls }
-  let newVersion := if upToDate then ce.version else s.version
-  if (old ++ new).isEmpty then ⟨put c ls { version := newVersion, ids := [] }, false, []⟩ else
-  let all := dedupSils (old ++ new) []
-  let activeIds := (all.filter fun x => getState x now = .active).map (·.id)
-  let allIds := (all.filter fun x => getState x now ≠ .expired).map (·.id)
-  ⟨put c ls { version := newVersion, ids := allIds }, !activeIds.isEmpty, activeIds⟩
+  if decide (ce.version = s.version) && ce.ids.isEmpty then ⟨c, false, []⟩ else
+  let cand := oldSils env s now ce ++ newSils env s now ce ls
+  if cand.isEmpty then ⟨put c ls { version := newVersion s ce, ids := [] }, false, []⟩ else
+  let all := dedupSils cand []
+  ⟨put c ls { version := newVersion s ce, ids := liveIdsOf now all }, !(activeIdsOf now all).isEmpty, activeIdsOf now all⟩
 
 /-- `Silencer.PostGC`. -/
 def postGC (c : Cache) (fps : List LabelSet) : Cache := fps.foldl (fun c ls => erase c ls) c
